@@ -52,7 +52,14 @@ def gen_ast(rng):
         elif odd and r < 0.6 and s >= 2:
             ops.append({"k": "gen", "ins": [f"%t{s - 2}"], "dst": "%so2", "tag": t()})  # non-adjacent consumer
         stages.append(ops)
-    return {"nst": nst, "tmps": ntmp, "const_bounds": rng.random() < 0.75, "stages": stages}
+    skip = None
+    if odd and nst >= 3 and rng.random() < 0.6:
+        # a temporary written in stage k and read only in stage k+2 (skip connection): must be rejected by the pass
+        k = rng.randrange(0, nst - 2)
+        stages[k].append({"k": "copy", "src": "%g", "dst": "%u0", "tag": t()})
+        stages[k + 2].append({"k": "gen", "ins": ["%u0"], "dst": "%so2", "tag": t()})
+        skip = k
+    return {"nst": nst, "tmps": ntmp, "skip": skip is not None, "const_bounds": rng.random() < 0.75, "stages": stages}
 
 
 def op_text(o):
@@ -83,6 +90,8 @@ def emit(ast, env=None) -> str:
         lb, ub, st = "%lba", "%uba", "%sta"
     for t in range(ast["tmps"]):
         e(f"    %t{t} = memref.alloc() {{vsite = {t} : i64}} : {T1}")
+    if ast.get("skip"):
+        e(f"    %u0 = memref.alloc() {{vsite = 8 : i64}} : {T1}")
     e(f"    %g = memref.alloc() {{vsite = 9 : i64}} : {T1}")
     e(f'    "memref.copy"(%G, %g) {{vtag = 99 : i64}} : ({T1}, {T1}) -> ()')
     e('    "snax.cluster_sync_op"() : () -> ()')
